@@ -14,6 +14,36 @@ NONE = -1000
 
 
 # =============================================================================== model A: isolation
+class UserCtx(dict):
+    """a user subclass of dict used as a context"""
+
+
+def as_class(c, cls):
+    """the context c (plain dicts / lists) rebuilt with dictionaries of class cls at every level"""
+    if cls == "dict" or cls is None:
+        return c
+    import lena.context
+    make = {"Context": lena.context.Context, "OrderedDict": collections.OrderedDict,
+            "defaultdict": lambda d: collections.defaultdict(None, d), "UserDict": UserCtx}[cls]
+
+    def conv(x):
+        if isinstance(x, dict):
+            return make(dict((k, conv(v)) for k, v in x.items()))
+        if isinstance(x, list):
+            return [conv(v) for v in x]
+        return x
+    return conv(c)
+
+
+def plain_ctx(c):
+    """a snapshot of a context as plain dicts and lists - made by hand: copy.deepcopy is what is under test"""
+    if isinstance(c, dict):
+        return dict((k, plain_ctx(v)) for k, v in c.items())
+    if isinstance(c, list):
+        return [plain_ctx(v) for v in c]
+    return c
+
+
 class Ev(object):
     """A user object with attributes (an "event"): mutable, and hashable by default."""
 
@@ -25,7 +55,7 @@ class Ev(object):
 EvPair = collections.namedtuple("EvPair", "ev aux")
 
 
-def flow_value(j, shape="pair"):
+def flow_value(j, shape="pair", cls="dict"):
     """Isolation!XS(j, shape): every value has its own data object and its own context (if any)."""
     if j % 3 == 1:
         c = {"a": 1, "n": {"b": 1}}
@@ -33,6 +63,7 @@ def flow_value(j, shape="pair"):
         c = {}
     else:
         c = {"a": 2}
+    c = as_class(c, cls)
     if shape == "pair":
         return ([j], c)
     if shape == "objpair":
@@ -236,21 +267,21 @@ def build_branch(b, br, shared=None):
 def pure(v):
     """real value (pair or bare data) -> pure value of the spec"""
     data, ctx = (v[0], v[1]) if _has_context(v) else (v, {})
-    return {"d": [data] if isinstance(data, int) else list(holder(v)), "c": copy.deepcopy(ctx)}
+    return {"d": [data] if isinstance(data, int) else list(holder(v)), "c": plain_ctx(ctx)}
 
 
 def norm_pure(x):
     return {"d": x["d"], "c": {} if x["c"] == [] else x["c"]}
 
 
-def run_scenario(brs, n, bs, drv, rq, copy_buf=True, share=False, shape="pair", nested=False):
+def run_scenario(brs, n, bs, drv, rq, copy_buf=True, share=False, shape="pair", nested=False, cls="dict"):
     """Execute one scenario on the real Split / Zip.  Returns per-branch lists (1-based dict) of
     (snapshot when yielded, the yielded object) plus the source values (as the caller holds them afterwards)."""
     import lena.core
     import lena.flow
     shared = {} if share else None
     branches = [build_branch(b + 1, br, shared) for b, br in enumerate(brs)]
-    values = [flow_value(j + 1, shape) for j in range(n)]
+    values = [flow_value(j + 1, shape, cls) for j in range(n)]
     outs = []          # (b, snapshot at yield, object)
 
     def take(item):
@@ -389,6 +420,8 @@ def _rand_scenario(rnd):
     shape = rnd.choice(["pair", "pair", "pair", "objpair", "obj", "tuple", "ntuple"])
     sc = _rand_scenario_of(rnd, shape)
     sc["shape"] = shape
+    sc["cls"] = rnd.choice(["dict", "dict", "Context", "Context", "OrderedDict", "defaultdict", "UserDict"]) \
+        if shape == "pair" else "dict"
     return sc
 
 
@@ -424,9 +457,35 @@ class Acc(object):
     """One real accumulator for the Alias model: how to build it, the data payload of a fill, the keys it
     adds itself to the yielded context, the spec kind it follows, compute or request."""
 
-    def __init__(self, name, make, data, own=(), kind="plain", method="compute", snapshot=True, nres=1):
+    def __init__(self, name, make, data, own=(), kind="plain", method="compute", snapshot=True, nres=1, typed=False):
         self.name, self.make, self.data, self.own = name, make, data, set(own)
         self.kind, self.method, self.snapshot, self.nres = kind, method, snapshot, nres
+        # typed: the filled contexts carry a typed context.variable (the element then composes variables)
+        self.typed = typed
+
+    def build(self):
+        """-> (element, the configuration objects the caller passed in and keeps: name -> object)"""
+        made = self.make()
+        return made if isinstance(made, tuple) else (made, {})
+
+
+TYPED_VARIABLE = {"name": "p", "type": "particle", "particle": {"name": "p"}}
+
+
+def sib(seq, getter, edges, typed=True):
+    """SplitIntoBins over seq(); the Variable (typed: its var_context has a sub-dictionary) and the edges are
+    objects of the caller: returned as the configuration to be watched"""
+    import lena.structures
+    import lena.variables
+    var = lena.variables.Variable("v", getter, type="coordinate", unit="cm") if typed else \
+        lena.variables.Variable("v", getter)
+    el = lena.structures.SplitIntoBins(seq(), var, edges)
+    return el, {"arg_var.var_context": var.var_context, "edges": edges}
+
+
+def hist(edges, **kw):
+    import lena.structures
+    return lena.structures.Histogram(edges, **kw), dict({"edges": edges}, **kw)
 
 
 def accumulators():
@@ -442,12 +501,14 @@ def accumulators():
         Acc("Mean(DSum)", lambda: lena.math.Mean(lena.math.DSum(), pass_on_empty=True), lambda j: 1.5),
         Acc("VarianceMeanCount", lambda: lena.math.VarianceMeanCount(corrected=False, pass_on_empty=True), lambda j: j),
         Acc("Vectorize(Sum)", lambda: lena.math.Vectorize(lena.math.Sum(), dim=2), lambda j: (1, 2)),
-        Acc("Histogram", lambda: lena.structures.Histogram([0, 1, 2]), lambda j: j % 2),
-        Acc("Histogram2d", lambda: lena.structures.Histogram([[0, 1, 2], [0, 2]]), lambda j: (j % 2, 1)),
+        Acc("Histogram", lambda: hist([0, 1, 2]), lambda j: j % 2),
+        Acc("Histogram2d", lambda: hist([[0, 1, 2], [0, 2]]), lambda j: (j % 2, 1)),
         Acc("Graph", lambda: lena.structures.Graph(), lambda j: (j, 1), own=("scale", "dim")),
-        Acc("SplitIntoBins(Sum)",
-            lambda: lena.structures.SplitIntoBins(lena.math.Sum(), lena.variables.Variable("v", lambda d: d), [0, 1, 2]),
+        Acc("SplitIntoBins(Sum)", lambda: sib(lena.math.Sum, lambda d: d, [0, 1, 2], typed=False),
             lambda j: j % 2, own=("variable",)),
+        # the binning Variable is typed and the filled contexts carry a typed context.variable of their own
+        Acc("SplitIntoBins(Sum)[typed]", lambda: sib(lena.math.Sum, lambda d: d, [0, 1, 2]),
+            lambda j: j % 2, own=("variable",), typed=True),
         Acc("Count", lambda: lena.flow.Count(), lambda j: j, own=("count",), kind="count"),
         Acc("FillCompute(Sum)", lambda: lena.core.FillCompute(lena.math.Sum()), lambda j: 1),
         Acc("FillComputeSeq(Mean)", lambda: lena.core.FillComputeSeq(lena.math.Mean(pass_on_empty=True)), lambda j: 2),
@@ -457,9 +518,8 @@ def accumulators():
     two_sums = lambda: lena.core.Split([lena.math.Sum(), lena.math.Sum()])
     accs += [
         Acc("SplitIntoBins(Split(Sum,Count))",
-            lambda: lena.structures.SplitIntoBins(lena.core.Split([lena.math.Sum(), lena.flow.Count()]),
-                                                  V("v", lambda d: d), [0, 1, 2]),
-            lambda j: j % 2, own=("variable", "count"), nres=2),
+            lambda: sib(lambda: lena.core.Split([lena.math.Sum(), lena.flow.Count()]), lambda d: d, [0, 1, 2]),
+            lambda j: j % 2, own=("variable", "count"), nres=2, typed=True),
         Acc("SplitIntoBins2d(Split(Sum,Count))",
             lambda: lena.structures.SplitIntoBins(lena.core.Split([lena.math.Sum(), lena.flow.Count()]),
                                                   V("v", lambda d: (d, d)), [[0, 1, 2], [0, 1, 2]]),
@@ -542,15 +602,25 @@ def py_ctx(c):
 class AliasRun(object):
     """A real accumulator driven along a behaviour of Alias.tla."""
 
-    def __init__(self, acc):
-        self.acc, self.el = acc, acc.make()
+    def __init__(self, acc, cls="dict"):
+        self.acc, self.cls = acc, cls
+        self.el, self.cfg = acc.build()
+        self.cfg0 = plain_ctx(self.cfg)
         self.src = []       # values as the producer holds them
         self.res = []       # contexts as the consumer holds them
         self.nfill = 0
 
+    def config_changed(self):
+        """None, or the configuration objects of the caller that no longer have their initial value"""
+        now = plain_ctx(self.cfg)
+        return None if now == self.cfg0 else {"initially": self.cfg0, "now": now}
+
     def fill(self, c):
         self.nfill += 1
-        v = (self.acc.data(self.nfill), py_ctx(c))
+        c = py_ctx(c)
+        if self.acc.typed:
+            c["variable"] = copy.deepcopy(TYPED_VARIABLE)
+        v = (self.acc.data(self.nfill), as_class(c, self.cls))
         self.src.append(v)
         self.el.fill(v)
 
@@ -568,8 +638,8 @@ class AliasRun(object):
 
     def snapshots(self):
         own = self.acc.own
-        return ([drop(copy.deepcopy(v[1]), own) for v in self.src],
-                [drop(copy.deepcopy(c), own) for c in self.res])
+        return ([drop(plain_ctx(v[1]), own) for v in self.src],
+                [drop(plain_ctx(c), own) for c in self.res])
 
 
 def yielded_contexts(item):
